@@ -46,10 +46,14 @@ TRUSTED = [
     "through Note.midi_pitch, spelling and voice (their own properties are C04/C11)",
 ]
 PARTIAL = [
-    "totality of VoSA (never raising, covering every id) is explored by the correspondence, not proved",
-    "key_transpose needs a unique exact maximum (hypothesis UniqueMax); ties are decided by binary64 noise in the code",
-    "that the Rat ordering sgn(c)c^2/v equals the ordering of np.corrcoef values is a modelling step (square-root free), "
-    "validated by the correspondence only",
+    "totality of VoSA (never raising, answering every id it was given) is explored by the correspondence on every case, "
+    "not proved: total_given_vosa takes it as the hypothesis VosaCovers",
+    "key_transpose needs a unique exact maximum (hypothesis UniqueMax; an example proves the claim false without it: "
+    "one note is equally C major and C minor for the cbms profiles); ties are decided by binary64 noise in the code",
+    "the model's comparison is proved to be the order of the real-number correlation coefficients "
+    "(key_order_is_correlation_order); that binary64 np.corrcoef has the same argmax is compared, not proved",
+    "double_acc_bound needs K_post >= 1 (default 40): with K_post = 0 the first note's window is empty and the model "
+    "(like the code) can produce six sharps on an A for an E flat (example in Props/C17.lean)",
 ]
 RULE = ("random note arrays (1-400 rows; simultaneous, overlapping, zero-length notes; shuffled; score units "
         "beat/quarter/div and performance units sec/tick; float32/float64/int fields) for ps13 (pitches 21-108), "
@@ -153,7 +157,7 @@ def cases(rng, tier):
         n = rand_n(rng, tier, 400)
         kpre = kpost = None
         if rng.random() < 0.15:
-            kpre, kpost = rng.choice([0, 1, 3, 10, 25]), rng.choice([1, 2, 5, 40, 60])
+            kpre, kpost = rng.choice([0, 1, 3, 10, 25]), rng.choice([0, 1, 2, 5, 40, 60])
         yield {"k": "ps", "unit": unit, "dt": dt, "step": step, "rows": gen_rows(rng, n, 21, 108), "kpre": kpre, "kpost": kpost,
                "pseed": rng.randrange(10**6)}
     for _ in range(n_vo):
@@ -303,8 +307,7 @@ def ev_ps(d):
         if str(s["step"]) not in STEP_PC or spelled_midi(s["step"], s["alter"], s["octave"]) != int(p):
             ev.oracle.append("spelling: note %d pitch %d spelled %r does not sound its pitch" % (i, int(p), (str(s["step"]), int(s["alter"]), int(s["octave"]))))
             break
-    default_window = not kw
-    if default_window:
+    if kpost >= 1:   # the note lies in its own window (default K_post = 40)
         bad = [i for i, s in enumerate(sp) if abs(int(s["alter"])) > 2]
         if bad:
             ev.oracle.append("spelling: alteration beyond a double accidental: note %d pitch %d -> %r" % (bad[0], int(a["pitch"][bad[0]]), tuple(sp[bad[0]])))
